@@ -132,6 +132,23 @@ def strategy(tier):
     return _case()
 
 
+def exhaustive(tier):
+    """pairs of different values that are easily taken for one another, bare and nested"""
+    import datetime as dt
+    pairs = [("caf\u00e9", "cafe\u0301"), ("\u00c5", "\u212b"), ("\u2126", "\u03a9"), ("a", "\u0430"), ("ab", "ab\n"), ("", "\x00"),
+             (1, 1.0), (0, 0.0), (2 ** 53, float(2 ** 53)), (0.0, -0.0) if False else (1.5, 1.5000000001), (b"a", "a"), (None, False), (0, None),
+             ([], ()), ([1], [1.0]), ({}, []), ({"a": 1}, {"a": 1.0}), ({"a": 1}, {"a": 1, "b": None}), ({1: "x"}, {"1": "x"}),
+             (dt.date(2020, 1, 2), dt.datetime(2020, 1, 2)), (dt.datetime(2020, 1, 2, tzinfo=dt.timezone.utc), dt.datetime(2020, 1, 2)),
+             (dt.datetime(2020, 1, 2, 3, tzinfo=dt.timezone.utc), dt.datetime(2020, 1, 2, 4, tzinfo=dt.timezone.utc))]
+    for u, v in pairs:
+        for a, b in ((u, v), (v, u)):
+            if isinstance(a, tuple):
+                continue        # (a tuple is not a plain value: only ever the perturbed side)
+            yield {"value": a, "rng": [0.5], "perturbed": b, "depth": 0}
+            yield {"value": [a, a], "rng": [0.5], "perturbed": [a, b], "depth": 1}
+            yield {"value": {"k": {"n": a}}, "rng": [0.5], "perturbed": {"k": {"n": b}}, "depth": 2}
+
+
 def same(a, b):
     """type-strict deep equality"""
     if type(a) is not type(b):
